@@ -49,7 +49,7 @@ TDml == \/ \E r \in {Row(3, 2, 0), Row(1, N, 0)} : Stmt([k |-> "insert", rows |-
               \/ Stmt([k |-> "update", c |-> "b", v |-> 0, p |-> p], DoUpdate(rows, "b", 0, p))
               \/ Stmt([k |-> "delete", p |-> p], DoDelete(rows, p))
         \/ Stmt([k |-> "update", c |-> "a", v |-> 2, p |-> [k |-> "eq", c |-> "id", v |-> 2]], DoUpdate(rows, "a", 2, [k |-> "eq", c |-> "id", v |-> 2]))
-TNext == (txn # <<>> /\ TDml) \/ Begin \/ Commit \/ Rollback \/ Savepoint \/ RollbackTo \/ Release
+TNext == (txn # <<>> /\ TDml) \/ Begin \/ Commit \/ Rollback \/ DropHandle \/ Savepoint \/ RollbackTo \/ Release
          \/ (txn = <<>> /\ nops > 3 /\ TDml)
 TSpec == TInit /\ [][TNext]_vars
 
